@@ -67,7 +67,7 @@ def _render(kind, ir, method, kw):
         return "import os\n\nX = 1\n\n\n%s\n\n\ndef other():\n    return 2\n" % body, "ConfigClass"
     if kind == "function":
         if method:
-            src = hops.emit(dict(ir, name="method"), "function", function_type="self", **kw)[1]
+            src = hops.emit(dict(ir, name="method"), "function", function_type=method, **kw)[1]
             return ("class C(object):\n    Z = 3\n\n%s\n\n    def keep(self):\n        return 1\n\n\nW = 5\n" %
                     "\n".join("    " + l if l.strip() else l for l in src.split("\n"))), "C.method"
         src = hops.emit(dict(ir, name="funky"), "function", function_type="static", **kw)[1]
@@ -194,6 +194,9 @@ def run_sync(d, names, truth, hashseed="0"):
 def run_case(ctx, P, stream, idx):
     r = ctx.rng(stream, idx)
     method = r.random() < 0.5
+    if method:
+        # the receiver of the method: an instance method, or - a third of the time - a classmethod (first argument cls)
+        method = ctx.rng(stream, idx, "receiver").choice(("self", "self", "cls"))
     files = {"class": "cls.py", "function": "fn.py", "argparse_function": "argp.py"}
     irs = {k: rand_ir(r, "Foo") for k in KINDS}
     truth = r.choice(KINDS)
@@ -239,6 +242,7 @@ def run_case(ctx, P, stream, idx):
         # the truth's own parameter order, read without cdd: signature (function), attribute order (class),
         # add_argument order (argparse)
         truth_order = plain_order(truth, srcs[truth], names[truth])
+        truth_names_plain = set(truth_order) if truth_order is not None else None
         if truth == "function" and gold is not None:
             # (the function parser lists the documented parameters first, in docstring order, then the others in
             # signature order: that reading - taken here in this process - is the truth's interface)
@@ -300,7 +304,7 @@ def run_case(ctx, P, stream, idx):
                         try:
                             exp = hops.hop(dict(deepcopy(gold), name=gold.get("name") or "Foo"),
                                            {"class": "class", "function": "function", "argparse_function": "argparse"}[k],
-                                           {"function_type": "self" if method else "static"} if k == "function" else {})[1]
+                                           {"function_type": method if method else "static"} if k == "function" else {})[1]
                         except Exception:
                             P.count("expectation.unavailable")
                             continue
@@ -316,6 +320,14 @@ def run_case(ctx, P, stream, idx):
                                     dict(w, target=k, after=now[k], diff=dd))
                     # independent of the emitters (the expectation above is itself produced by them): a plain scalar
                     # default of the truth must be found, same value and same Python type, in every target
+                    if truth_names_plain is not None and not unchanged_file:
+                        # a name the truth does not have (read with `ast` only: the receiver of a method is not one)
+                        P.monitor("target.names-vs-truth.compared")
+                        extra = [n_ for n_ in got["params"] if n_ not in truth_names_plain and n_ != "return_type"]
+                        if extra:
+                            P.deviation("sync.target-has-names-the-truth-lacks|%s,receiver=%s" % (key_feats, method or "-"),
+                                        "after sync --truth %s the %s target has %r, which the truth (%r) does not" % (
+                                            truth, k, extra, sorted(truth_names_plain)), dict(w, target=k, after=now[k]))
                     if truth_order is not None:
                         P.monitor("target.order-vs-truth.compared")
                         got_order = [n_ for n_ in got["params"] if n_ in truth_order]
